@@ -235,6 +235,8 @@ def opt_case(draw, tier, cvx=False):
         c["cvx_loss"] = draw(st.sampled_from(["use", "re", "are"]))
         # the algorithm object may have solved another problem before (other constraint mode / other data)
         c["cvx_warm"] = draw(st.sampled_from([None, None, "unconstraint", "physical"]))
+        # ... and the loss object may have been set up for another tomography (other testers, same sizes) before
+        c["cvx_loss_warm"] = draw(st.booleans())
     return c
 
 
@@ -368,6 +370,20 @@ def check_cvxpy(case, ctx):
     import warnings
 
     algo = CvxpyMinimizationAlgorithm()
+    if case.get("cvx_loss_warm"):
+        alt = dict(case)
+        alt["raw_u"] = [0.37 - 0.91 * v for v in case["raw_u"]][::-1]
+        try:
+            qt_alt, _, info_alt = tomo.build_tomo(alt)
+            with warnings.catch_warnings():
+                warnings.simplefilter("ignore")
+                CvxpyLossMinimizationEstimator().calc_estimate(
+                    qt_alt, tomo.make_empi({"data": "exact", "n": 100}, tomo.exact_dists(alt, info_alt)), loss, CvxpyLossFunctionOption(),
+                    CvxpyMinimizationAlgorithm(), CvxpyMinimizationAlgorithmOption(name_solver="scs", eps_tol=1e-6))
+            ctx.label("loss_used_before:other_tomography")
+        except Exception as e:  # the warm-up itself is not under test
+            ctx.label("loss_warmup_failed:" + type(e).__name__)
+            loss = type(loss)()
     if case.get("cvx_warm"):
         ctx.label("algo_used_before:" + case["cvx_warm"])
         with warnings.catch_warnings():
